@@ -39,6 +39,50 @@ def escape_newlines(string: str) -> str:
     return string.replace("\n", "\\n")
 
 
+# Characters at which str.splitlines (used when reading a multi-line literal) breaks a line.
+_LINE_BREAKS = "\n\r\v\f\x1c\x1d\x1e\x85\u2028\u2029"
+
+
+def _single_line_literal_is_exact(string: str) -> bool:
+    """
+    Whether the single line literal form (quotes and new lines escaped) is read back as this exact string:
+    a backslash in front of an n or a quote would be taken for an escape sequence, a backslash at the end
+    would escape the closing quote, and raw carriage returns and form feeds can not be part of the literal.
+    """
+    return not (
+        "\r" in string
+        or "\f" in string
+        or "\\n" in string
+        or "\\'" in string
+        or '\\"' in string
+        or "\\\n" in string
+        or string.endswith("\\")
+    )
+
+
+def _raw_literal_is_exact(string: str, delimiter: str) -> bool:
+    """Whether delimiter + string + delimiter (all in one line, nothing is escaped in this form) is read back exactly."""
+    return (
+        delimiter not in string
+        and not string.endswith(delimiter[0])
+        and not any(c in string for c in _LINE_BREAKS)
+    )
+
+
+def _multiline_literal_is_exact(string: str, indent: int, delimiter: str) -> bool:
+    """
+    Whether the multi line form is read back exactly: the reader removes the indentation that all lines have in
+    common and drops a last line that is blank (which at indent 0 is the last line of the string itself).
+    """
+    lines = string.split("\n")
+    return (
+        delimiter not in string
+        and not any(c in string for c in _LINE_BREAKS if c != "\n")
+        and any(not line.startswith(" ") for line in lines)
+        and (indent > 0 or lines[-1].strip(" ") != "")
+    )
+
+
 def repr_string(string: str, indent: int = 0, prefer_single_qoute: bool = False) -> str:
     if prefer_single_qoute:
         preferred_quote = "'"
@@ -51,13 +95,20 @@ def repr_string(string: str, indent: int = 0, prefer_single_qoute: bool = False)
 
     if "\n" not in string:
         # Single line string
+        if not _single_line_literal_is_exact(string):
+            # Nothing is unescaped in the triple quote form.
+            for delimiter in (preferred_multiline_quote, secondary_multiline_quote):
+                if _raw_literal_is_exact(string, delimiter):
+                    return f"{delimiter}{string}{delimiter}"
         return f"{preferred_quote}{escape_quotes(string, which_quotes=preferred_quote)}{preferred_quote}"
-    if preferred_multiline_quote in string:
-        if secondary_multiline_quote in string:
-            # uh oh... We can't properly handle this at the moment. We fall back to single line string representation.
-            return f"{preferred_quote}{escape_newlines(escape_quotes(string, which_quotes=preferred_quote))}{preferred_quote}"
-        return _repr_multiline_string(string, indent, secondary_multiline_quote)
-    return _repr_multiline_string(string, indent, preferred_multiline_quote)
+    for delimiter in (preferred_multiline_quote, secondary_multiline_quote):
+        if delimiter not in string:
+            if _multiline_literal_is_exact(string, indent, delimiter) or not _single_line_literal_is_exact(string):
+                return _repr_multiline_string(string, indent, delimiter)
+            break
+    # uh oh... We can't properly handle this as multi line string at the moment (both delimiters are part of it, or
+    # the reader would strip indentation or a blank last line). We fall back to single line string representation.
+    return f"{preferred_quote}{escape_newlines(escape_quotes(string, which_quotes=preferred_quote))}{preferred_quote}"
 
 
 def _repr_multiline_string(string: str, indent: int, delimiter: str) -> str:
